@@ -231,7 +231,18 @@ def run(case):
                 tags.append("add:scalar-valued-operand")
             else:
                 t2 = (TABLE if (TABLE is lib.HashTable or np.asarray(other_vals).dtype.kind in "iu") else lib.HashTable)(karr(keys, kd), np.array(other_vals, dtype=vdt), **kw)
-            a = attempt(lambda: tb + t2)
+            if op.get("other_order") and len(keys) >= 2 and op.get("scalar_other") is None:
+                # the second table is built on its own over the SAME key set given in another order (keys that share a bucket then sit in another order
+                # inside it): the sum, if the library forms it at all, is the per-key sum
+                perm_ = sorted(range(len(keys)), key=lambda i_: (i_ * 7 + len(keys) // 2) % len(keys)) if op["other_order"] == "mixed" else list(range(len(keys)))[::-1]
+                t2 = lib.HashTable(karr([keys[i_] for i_ in perm_], kd), np.array([other_vals[i_] for i_ in perm_], dtype=vdt), **kw)
+                tags.append("add:other-key-order")
+                a = attempt(lambda: tb + t2)
+                if not a.ok:
+                    ops_declined = True      # (the current tree declines tables whose key layouts differ; declining is not a wrong sum)
+                    continue
+            else:
+                a = attempt(lambda: tb + t2)
             if not a.ok:
                 bad = "table + table2 raised %r" % a
             else:
@@ -485,6 +496,8 @@ def gen_history(rng, tier, kd="pick", style=None, mod="pick", scalar_init=None, 
             op["vals"] = [rng.randint(1, 50) for _ in keys]
             if rng.random() < 0.35:
                 op["scalar_other"] = rng.choice([0.5, 0.25, 2, 1.5, 7])
+            elif rng.random() < 0.5:
+                op["other_order"] = rng.choice(["reversed", "mixed"])
             ntables += 1
         elif name == "eq":
             op["differ"] = None if rng.random() < 0.5 else rng.randrange(n)
